@@ -170,6 +170,7 @@ const Prelude = `(declare-datatypes ((Sl 0)) (((mk-sl (sl-id Int) (sl-off Int) (
 (declare-fun uf_shr (Int Int) Int)
 (declare-fun uf_andnot (Int Int) Int)
 (declare-fun str_lt (Int Int) Bool)
+(declare-fun owned (Int) Bool)
 `
 
 // ---------------------------------------------------------------------------
